@@ -22,4 +22,51 @@ def i2cDecode (m : Mem) : I2CParsed :=
     else { fields := some f, address := none, valid := false, called := false }
   else { fields := none, address := none, valid := false, called := true }
 
+/-! ### deck memory info section, as the firmware (deck_memory.c, version 3) produces it -/
+
+/-- one deck memory info record on the device -/
+structure DeckRec where
+  isValid : Bool
+  isStarted : Bool
+  supportsRead : Bool
+  supportsWrite : Bool
+  supportsUpgrade : Bool
+  upgradeRequired : Bool
+  bootloaderActive : Bool
+  resetToFw : Bool
+  resetToBootloader : Bool
+  hash : Nat
+  len : Nat
+  base : Nat
+  name : List UInt8
+  deriving Repr, DecidableEq
+
+def b2n (b : Bool) : Nat := if b then 1 else 0
+
+def DeckRec.bf1 (r : DeckRec) : Nat :=
+  b2n r.isValid + 2 * b2n r.isStarted + 4 * b2n r.supportsRead + 8 * b2n r.supportsWrite +
+  16 * b2n r.supportsUpgrade + 32 * b2n r.upgradeRequired + 64 * b2n r.bootloaderActive
+def DeckRec.bf2 (r : DeckRec) : Nat := b2n r.resetToFw + 2 * b2n r.resetToBootloader
+
+/-- 32 bytes: two bit fields, required hash, required length, base address (u32 LE), name NUL-padded to 18 -/
+def DeckRec.encode (r : DeckRec) : List UInt8 :=
+  [UInt8.ofNat r.bf1, UInt8.ofNat r.bf2] ++ (leBytes 4 r.hash ++ (leBytes 4 r.len ++ (leBytes 4 r.base ++ fitBytes 18 r.name)))
+
+/-- representable records: u32 fields, an ASCII name of at most 18 characters without NUL -/
+def DeckRec.WF (r : DeckRec) : Prop :=
+  r.hash < 2 ^ 32 ∧ r.len < 2 ^ 32 ∧ r.base < 2 ^ 32 ∧ r.name.length ≤ 18 ∧ ∀ b ∈ r.name, b ≠ 0 ∧ b.toNat < 128
+
+/-- the info section: version byte 3 and the records -/
+def deckSection (recs : List DeckRec) : List UInt8 := 3 :: (recs.map DeckRec.encode).flatten
+
+/-- what the library must report for record number `i` -/
+def DeckRec.info (r : DeckRec) (i : Nat) : DeckInfo :=
+  { bf1 := r.bf1, bf2 := r.bf2, requiredHash := r.hash, requiredLength := r.len, baseAddress := r.base,
+    name := r.name.map UInt8.toNat, cmdBase := 0x1000 + i * 0x20 }
+
+/-- the decks the library must list: the valid records, by index -/
+def deckExpected : List DeckRec → Nat → List (Nat × DeckInfo)
+  | [], _ => []
+  | r :: rs, i => if r.isValid then (i, r.info i) :: deckExpected rs (i + 1) else deckExpected rs (i + 1)
+
 end CfVerif.C14
